@@ -16,8 +16,9 @@ Record st12 := mkS12 {
   ann_times : list (list Z);   (* emission times of Announces per port, newest first *)
   sync_times : list (list Z);
   dreq_times : list (list Z);
-  recovered : list bool;       (* port went Faulty -> Listening at some point *)
-  f22 : bool                   (* the known stuck state (listening, recovered, no receipt timer) was seen *)
+  recovered : list bool;       (* the port listens since it recovered from a fault that began without a receipt timer *)
+  f22 : bool;                  (* the known stuck state (listening, recovered, no receipt timer) was seen *)
+  uaf : list bool              (* the port is faulty and had no announce receipt timer armed when the fault began *)
 }.
 
 Definition set_timer (ts : timers) (k : nat) (v : option Z) : timers := update_nth k v ts.
@@ -81,7 +82,7 @@ Definition timers_sane_but_f22 (c : pcase) (s : st12) (sn : snapshot) : bool :=
 Definition step_C12 (c : pcase) (s : st12) (prev : snapshot) (e : event) (o : list tobs) (sn : snapshot) : option st12 :=
   match e with
   | EvTick ns => Some (mkS12 (now12 s + ns) (tms s) true (last_frame s) (ann_times s) (sync_times s)
-                             (dreq_times s) (recovered s) (f22 s))
+                             (dreq_times s) (recovered s) (f22 s) (uaf s))
   | _ =>
       (* obedience of the host once time runs: a timer fires only when armed and due *)
       let obey :=
@@ -103,11 +104,36 @@ Definition step_C12 (c : pcase) (s : st12) (prev : snapshot) (e : event) (o : li
       let lf := match e with EvRecvEvent _ _ _ | EvRecvGeneral _ _ => now12 s | _ => last_frame s end in
       let upd (ls : list (list Z)) (t : msg_type) :=
         map (fun p => push_time (now12 s) (emitted_types (obs_of_port o p) t) (nth p ls [])) (all_ports c) in
-      let rec' := map (fun p => nth p (recovered s) false || ((state_of prev p =? 2) && (state_of sn p =? 4)))
-                      (all_ports c) in
+      (* F22 is the stuck state of a port whose fault began without a running receipt
+         timer (it had been master): only that one is excused, and only while the port
+         keeps listening *)
+      let rec' := map (fun p => if state_of sn p =? 4
+                                then (nth p (recovered s) false && (state_of prev p =? 4))
+                                     || ((state_of prev p =? 2) && nth p (uaf s) false)
+                                else false) (all_ports c) in
+      let uaf' := map (fun p => if state_of sn p =? 2
+                                then (if state_of prev p =? 2 then nth p (uaf s) false
+                                      else match nth 3 (nth p tms2 no_timers) None with Some _ => false | None => true end)
+                                else false) (all_ports c) in
+      (* a timer that fires in the state that relies on it produces its message *)
+      let fires_ok :=
+        match e with
+        | EvAnnounceTimer p _ => if state_of prev p =? 6 then (emitted_types (obs_of_port o p) MTAnnounce =? 1)%nat else true
+        | EvSyncTimer p => if state_of prev p =? 6 then (emitted_types (obs_of_port o p) MTSync =? 1)%nat else true
+        | EvDelayReqTimer p =>
+            match port_cfg c p with
+            | Some pc => match pc_delay pc with
+                         | E2E _ => if state_of prev p =? 9 then (emitted_types (obs_of_port o p) MTDelayReq =? 1)%nat else true
+                         | P2P _ => (emitted_types (obs_of_port o p) MTPDelayReq =? 1)%nat
+                         end
+            | None => true
+            end
+        | _ => true
+        end in
       let mk f := mkS12 (now12 s) tms2 (timed s) lf (upd (ann_times s) MTAnnounce) (upd (sync_times s) MTSync)
-                        (upd (dreq_times s) MTDelayReq) rec' f in
+                        (upd (dreq_times s) MTDelayReq) rec' f uaf' in
       let s' := mk (f22 s) in
+      if negb fires_ok then None else
       if negb obey then Some s'     (* the host did not obey: premise of the property not met, not judged *)
       else if timers_sane c s' sn then Some s'
       else if timers_sane_but_f22 c s' sn then Some (mk true) else None
@@ -150,7 +176,8 @@ Definition init12 (c : pcase) : st12 :=
   let tm0 := map (fun _ => no_timers) (all_ports c) in
   mkS12 0 (apply_resets 0 tm0 (match pc_init c with Some o => o | None => [] end))
         false 0 (map (fun _ => []) (all_ports c)) (map (fun _ => []) (all_ports c))
-        (map (fun _ => []) (all_ports c)) (map (fun _ => false) (all_ports c)) false.
+        (map (fun _ => []) (all_ports c)) (map (fun _ => false) (all_ports c)) false
+        (map (fun _ => false) (all_ports c)).
 
 (** liveness at the end of a silent tail *)
 Definition final_ok (excuse : bool) (c : pcase) (s : st12) (sn : snapshot) : bool :=
